@@ -569,7 +569,7 @@ pub fn damage(tree: &Value, kind: u8, arg: u32) -> (Option<Value>, bool) {
 								malformed = true;
 							}
 							"window_buf_oversize" => {
-								if PMAX <= 70_000 {
+								if PMAX <= 255 {
 									let target_len = (PMAX + u64::from(arg % 2)) as usize;
 									if let Some(Value::Seq(b)) = v.field_mut("buf") {
 										while b.len() < target_len {
